@@ -576,6 +576,40 @@ def _one_byte(prog, b, blk):
     return False
 
 
+def cors_fields(chk, prog, cfg):
+    """R5.cors_fields: Cors::set_headers looks at each of the three parts of the configuration (origins, methods, headers) on every path: what
+    is written for one part does not depend on another part being set (a route configured with allowed methods only still gets them)."""
+    b = prog.bodies.get("humphrey::http::cors::Cors::set_headers")
+    chk.floor(f"Cors::set_headers [{cfg}]", 1 if b else 0, 1)
+    if not b:
+        return
+    st = prog.structs.get("humphrey::http::cors::Cors", {}).get("fields", [])
+    rets = core.return_blocks(b)
+    for i, f in enumerate(st):
+        sites = set()
+        for bi, blk in enumerate(b.blocks):
+            def reads(x):
+                if isinstance(x, dict):
+                    pl = x.get("pl") if x.get("k") in ("copy", "move", "ref", "discr") else None
+                    if isinstance(pl, dict) and pl.get("l") == 1 and [e[1] for e in pl.get("p", []) if e[0] == "f"][:1] == [i]:
+                        return True
+                    return any(reads(v) for v in x.values())
+                if isinstance(x, list):
+                    return any(reads(v) for v in x)
+                return False
+            if any(reads(s_.get("rv")) for s_ in blk["stmts"] if "rv" in s_) or (blk["term"] and reads({k_: v for k_, v in blk["term"].items() if k_ in ("args", "discr")})):
+                sites.add(bi)
+        # (a header the handler has already set is left alone: the Some edge of headers.get(<that header>) is the one way round the field)
+        want = {"allowed_origins": "AccessControlAllowOrigin", "allowed_methods": "AccessControlAllowMethods", "allowed_headers": "AccessControlAllowHeaders"}.get(f["name"])
+        skip = set()
+        for gb, gt in b.calls_to(r"Headers::get$"):
+            if any(core.is_variant(describe(prog, b, a), "HeaderType", want) for a in gt["args"]):
+                skip |= set(some_edge_of(prog, b, gb, "Some"))
+        w = core.must_pass(b, [0], rets, through_nodes=sorted(sites), through_edges=skip, after_from=False) if sites else [0]
+        chk.ob("R5.cors_fields", b.path, f"Cors.{f['name']} is consulted on every path through set_headers (unless the response already carries its header)", w is None,
+               f"for some configuration of the other parts `{f['name']}` is never looked at: its Access-Control-* header is silently missing from the response", path=w, cfg=cfg)
+
+
 def timeout_table(chk, prog):
     fn = "humphrey::http::request::Request::from_stream_with_timeout"
     ms = [m for m in tables.fn_tables(prog, fn) if "ErrorKind" in m.get("scrut_ty", "")]
@@ -637,6 +671,7 @@ def run(chk):
             analyse_loop(chk, prog, cfg, b, facts[cfg])
         shared.nothing_after_body(chk, prog, "R8.nothing_after_body", cfg=cfg)
         c02.reads(chk, prog, cfg)
+        cors_fields(chk, prog, cfg)
         shared.eof_is_error(chk, prog, "R2.eof_is_error", r"^humphrey::http::request::Request::from_stream_inner(::\{closure#0\})?$", "request head", cfg=cfg)
         if cfg == "A":
             timeout_table(chk, prog)
